@@ -257,10 +257,11 @@ fn reach_search(seed: u64, random_cases: usize) -> (u64, Option<Value>) {
 //   chroot     expected: for every block that holds a direct call to chroot, one warning iff chdir is not imported, or no
 //              chdir call is reachable from the block after the call and the function does not call both chdir and an
 //              imported configured privilege-dropping function; compared as multisets of the warning's tid.
-//              KNOWN FINDING class `K1-chroot-call-block-without-exactly-one-successor`: chroot and chdir imported and the
-//              chroot block has no successor (call without return target) or two (conditional jump + call): the property
-//              says "handles every program without failing", the real check panics.  Counted separately in the sweep,
-//              reported as a disagreement by `replay` (that is the reproduction of the finding).
+//              "after it" = from the block the chroot call returns to; a chroot call without return target has nothing
+//              after it.  Any panic is a disagreement (the property: "handles every program without failing").
+//              History: before /repo commit b82ac12 the check panicked for a chroot block with no successor (call without
+//              return target) or two (conditional jump + call) -- finding K1, reproductions kept in
+//              /verif/seeded/findings/c17_k1a.json and c17_k1b.json (they agree now).
 use cwe_checker_lib::analysis::graph::get_program_cfg;
 use cwe_checker_lib::checkers::{cwe_243, cwe_367};
 
@@ -268,7 +269,6 @@ use cwe_checker_lib::pipeline::AnalysisResults;
 use std::collections::BTreeMap;
 
 const SYMS: [&str; 5] = ["chroot", "chdir", "setuid", "access", "open"];
-pub const K1: &str = "K1-chroot-call-block-without-exactly-one-successor";
 
 #[derive(Clone, Debug, PartialEq)]
 enum J {
@@ -501,11 +501,10 @@ impl ProgCase {
         }
     }
 
-    /// Ok(expected warning tids) or Err(K1) when the property demands "no failure" on a program the check cannot handle
-    fn chroot_expected(&self) -> (Vec<String>, bool) {
+    /// expected warning tids, from the property statement
+    fn chroot_expected(&self) -> Vec<String> {
         let mut out = Vec::new();
-        let mut k1 = false;
-        let chroot = match self.sym_index("chroot") { Some(i) => i, None => return (out, false) };
+        let chroot = match self.sym_index("chroot") { Some(i) => i, None => return out };
         let chdir = self.sym_index("chdir");
         for f in 0..self.fns.len() {
             for b in 0..self.fns[f].len() {
@@ -515,22 +514,9 @@ impl ProgCase {
                 match chdir {
                     None => out.push(tid),
                     Some(cd) => {
-                        let succ = self.succ(f, b);
-                        // an internal call contributes its CallCombine edge even when the callee never returns
-                        let extra = self.fns[f][b].iter().filter(|j| matches!(j, J::Int(_)) && !(matches!(j, J::Int(Some(_))) && self.fn_returns(1))).count();
-                        if succ.len() + extra != 1 {
-                            k1 = true;
-                            continue;
-                        }
-                        if extra == 1 {
-                            // the only edge leads into the call stub of a callee that never returns: nothing is reachable
-                            if !(self.fn_calls(f, cd) && self.privs.iter().any(|p| self.sym_index(p).map(|s| self.fn_calls(f, s)).unwrap_or(false))) {
-                                out.push(tid);
-                            }
-                            continue;
-                        }
-                        let after = succ[0].0;
-                        let reachable = !self.hits(f, after, chroot, cd).is_empty();
+                        // the block the chroot call returns to, if it returns
+                        let after = match &self.fns[f][b][k] { J::Ext(_, r) => *r, _ => None };
+                        let reachable = after.map(|a| !self.hits(f, a, chroot, cd).is_empty()).unwrap_or(false);
                         let both = self.fn_calls(f, cd) && self.privs.iter().any(|p| self.sym_index(p).map(|s| self.fn_calls(f, s)).unwrap_or(false));
                         if !reachable && !both { out.push(tid); }
                     }
@@ -538,13 +524,13 @@ impl ProgCase {
             }
         }
         out.sort();
-        (out, k1)
+        out
     }
     fn chroot_real(&self) -> Result<Vec<String>, String> {
         let case = self.clone();
         catch_unwind(AssertUnwindSafe(move || {
             let mut project = case.project();
-            // C17_NORMALIZE=1: run the project normalisation passes first (used to show that the known finding survives them)
+            // C17_NORMALIZE=1: run the project normalisation passes first (used to show that finding K1 survived them)
             if std::env::var("C17_NORMALIZE").is_ok() {
                 let _ = project.normalize();
             }
@@ -556,21 +542,12 @@ impl ProgCase {
             v
         })).map_err(|_| "panic".to_string())
     }
-    /// (disagreement, is-known-finding-class)
-    fn chroot_check(&self) -> (Option<Value>, bool) {
-        let (exp, k1) = self.chroot_expected();
+    fn chroot_check(&self) -> Option<Value> {
+        let exp = self.chroot_expected();
         let got = self.chroot_real();
-        if k1 {
-            // the property: no failure.  Any non-panicking answer is accepted here (the warnings of the other blocks are
-            // not compared); a panic is the known finding.
-            return match got {
-                Ok(_) => (None, false),
-                Err(e) => (Some(json!({"input": self.to_json("chroot"), "expected": "no failure (the property: handles every program without failing)", "got": e, "known_finding": K1})), true),
-            };
-        }
         match got {
-            Ok(ref v) if *v == exp => (None, false),
-            _ => (Some(json!({"input": self.to_json("chroot"), "expected": exp, "got": match got { Ok(v) => json!(v), Err(e) => json!(e) }})), false),
+            Ok(ref v) if *v == exp => None,
+            _ => Some(json!({"input": self.to_json("chroot"), "expected": exp, "got": match got { Ok(v) => json!(v), Err(e) => json!(e) }})),
         }
     }
 }
@@ -610,25 +587,19 @@ fn prog_random(rng: &mut Rng, chroot_bias: bool) -> ProgCase {
     ProgCase { fns, imported, privs, pairs }
 }
 
-/// (cases, known-finding cases, first disagreement that is not the known finding, first known-finding record)
-fn prog_search(which: &str, seed: u64, n: usize) -> (u64, u64, Option<Value>, Option<Value>) {
+/// (cases, first disagreement)
+fn prog_search(which: &str, seed: u64, n: usize) -> (u64, Option<Value>) {
     let mut rng = Rng(seed ^ if which == "toctou" { 0x367 } else { 0x243 });
-    let (mut cases, mut known) = (0u64, 0u64);
-    let mut first_known = None;
+    let mut cases = 0u64;
     for _ in 0..n {
         let c = prog_random(&mut rng, which == "chroot");
         cases += 1;
-        if which == "toctou" {
-            if let Some(d) = c.toctou_check() { return (cases, known, Some(d), first_known); }
-        } else {
-            match c.chroot_check() {
-                (Some(d), true) => { known += 1; if first_known.is_none() { first_known = Some(d); } }
-                (Some(d), false) => return (cases, known, Some(d), first_known),
-                _ => (),
-            }
+        let d = if which == "toctou" { c.toctou_check() } else { c.chroot_check() };
+        if d.is_some() {
+            return (cases, d);
         }
     }
-    (cases, known, None, first_known)
+    (cases, None)
 }
 
 // ------------------------------------------------------------------------------------------------------------------------
@@ -638,17 +609,8 @@ fn prog_search(which: &str, seed: u64, n: usize) -> (u64, u64, Option<Value>, Op
 pub fn search(twin: &str, _case: Option<&str>, seed: u64) -> Option<Value> {
     match twin {
         "c17.reach" => reach_search(seed, 20_000).1,
-        "c17.toctou" => prog_search("toctou", seed, 20_000).2,
-        "c17.chroot" => {
-            // a disagreement outside the recorded class K1 wins; hits of K1 alone are reported as `known_only`
-            // (main.rs prints found=false for them, the check prints them as KNOWN-FINDING)
-            let r = prog_search("chroot", seed, 20_000);
-            match (r.2, r.3) {
-                (Some(d), _) => Some(d),
-                (None, Some(k)) => Some(json!({"known_only": true, "known": [k], "known_finding_cases": r.1, "evaluations": r.0})),
-                (None, None) => None,
-            }
-        }
+        "c17.toctou" => prog_search("toctou", seed, 20_000).1,
+        "c17.chroot" => prog_search("chroot", seed, 20_000).1,
         _ => None,
     }
 }
@@ -664,8 +626,8 @@ pub fn replay(twin: &str, input: &Value) -> Value {
             Some(d) => json!({"agrees": false, "expected": d["expected"], "got": d["got"]}),
         },
         "chroot" => match ProgCase::from_json(input).chroot_check() {
-            (None, _) => json!({"agrees": true}),
-            (Some(d), _) => json!({"agrees": false, "expected": d["expected"], "got": d["got"], "known_finding": d["known_finding"]}),
+            None => json!({"agrees": true}),
+            Some(d) => json!({"agrees": false, "expected": d["expected"], "got": d["got"]}),
         },
         _ => json!({"agrees": true, "note": "unknown c17 twin"}),
     }
@@ -678,9 +640,8 @@ pub fn sweep(twin: &str, seed: u64) -> Value {
             json!({"cases": cases, "disagreements": if d.is_some() { 1 } else { 0 }, "first": d})
         }
         "c17.toctou" | "c17.chroot" => {
-            let (cases, known, d, first_known) = prog_search(&twin[4..], seed, 100_000);
-            json!({"cases": cases, "disagreements": if d.is_some() { 1 } else { 0 }, "first": d,
-                   "known_finding_cases": known, "known_finding": if known > 0 { json!(K1) } else { Value::Null }, "first_known_finding": first_known})
+            let (cases, d) = prog_search(&twin[4..], seed, 100_000);
+            json!({"cases": cases, "disagreements": if d.is_some() { 1 } else { 0 }, "first": d})
         }
         _ => json!({"cases": 0, "disagreements": 0, "note": "unknown c17 twin"}),
     }
